@@ -20,7 +20,7 @@ vars == <<b, tried, used, adds, raw, f>>
 
 ArgSigma == {97, 32, 9, 1, 10, 0, 34, 39, 92, 200}
 NameSigma == {97, 90, 95, 48, 32, 10, 34, 200, 1}
-FSigma == {97, 32, 34, 39, 92, 40, 41, 200}
+FSigma == {97, 32, 9, 34, 39, 92, 40, 41, 200}      \* (9: control characters are ordinary value bytes inside the quoted expression)
 RECURSIVE StrsOver(_, _)
 StrsOver(S, n) == IF n = 0 THEN {<<>>} ELSE LET R == StrsOver(S, n - 1) IN R \cup {Append(s, c) : s \in {t \in R : Len(t) = n - 1}, c \in S}
 ArgStrs == StrsOver(ArgSigma, MaxTotal)
